@@ -135,6 +135,9 @@ func vSetField(msgv reflect.Value, gmn MesgNum, sindex int, choice bool) vSet {
 			out.unset = true // only the empty (= invalid) string fits
 			return out
 		}
+		if choice {
+			n = vConcretize(vInt(1, n)) // one or two characters
+		}
 		bs := make([]byte, n)
 		for i := range bs {
 			bs[i] = 'a' + byte(i)
